@@ -358,8 +358,12 @@ def gen_file(rng, natoms=None, ninstr=None, with_qpeaks=True, restraints=True, k
             nums = [0] * len(nums)
         add(toks, 'instr', kw=kw, nums=nums, words=ws)
     REMS = [['REM', 'target', 'distance', 'd(C-C)', '=', '1.54'], ['REM', 'a', 'plain', 'remark'], ['REM', 'R1', '=', '0.0400', 'for', '1234', 'Fo', '>', '4sig(Fo)'],
+            ['REM', 'R1', '=', '0.0400', 'for', '1234', 'Fo', '>', '4sig(Fo)', 'and', '0.0512', 'for', 'all', '2000', 'data'],
+            ['REM', 'wR2', '=', '0.1143,', 'GooF', '=', 'S', '=', '1.044,', 'Restrained', 'GooF', '=', '1.046', 'for', 'all', 'data'],
+            ['REM', 'Highest', 'difference', 'peak', '0.407,', 'deepest', 'hole', '-0.691,', '1-sigma', 'level', '0.073'],
+            ['REM', '123', 'parameters', 'refined', 'using', '5', 'restraints'],
             ['REM'], ['REM', 'SADI', 'C1', 'C2', '='], ['REM', 'C1B', '1', '0.31', '0.36', '0.33', '-21.0', '0.03'], ['REM', '2', '1', '0.5', '0.5', '0.5', '11.0', '0.05']]
-    for _ in range(rng.choice([0, 0, 1, 2])):
+    for _ in range(rng.choice([0, 0, 1, 2, 3])):
         add(rng.choice(REMS), 'rem')
     nfv = rng.randint(3, 12)     # the occupation codes used below refer to free variables 2 and 3
     fv = [1.0] + [round(rng.uniform(0.1, 0.9), 4) for _ in range(nfv - 1)]
@@ -467,7 +471,10 @@ def gen_layout(rng, tokens, kind, style):
     if style == 'plain':
         return {}
     if kind in ('titl', 'rem'):       # free text: never wrapped, no comment; the keyword may be written in any case
-        return {'lower': True} if rng.random() < 0.4 else {}
+        lay = {'lower': True} if rng.random() < 0.4 else {}
+        if kind == 'rem' and rng.random() < 0.5:
+            lay['gap'] = rng.choice([2, 'rand'])       # the remarks SHELXL writes (R1, wR2, GooF, peaks) are read token by token
+        return lay
     lay = {}
     n = len(tokens)
     if n > 2 and rng.random() < 0.5 and kind not in ('symm',):
